@@ -275,6 +275,20 @@ def mutate_result(r, kind, level_):
 def behavioural(run, name, g, thunk, kind, rng):
     """export -> mutate the export -> the graph and a later export are unchanged; later graph changes do not reach an earlier export"""
     problems = []
+    # distinct nodes / edges of a derived graph never share a metadata container (checked first, on the untouched source:
+    # empty containers can be shared just as well as full ones)
+    if kind == 'graph':
+        r0 = thunk(g)
+        if r0 is not g:
+            seen_o = {}
+            for lab, m in graph_holders(r0):
+                if id(m) in seen_o:
+                    problems.append(('outer', f'{name}: {lab} and {seen_o[id(m)]} share one metadata dict'))
+                seen_o[id(m)] = lab
+            own = {id(m): lab for lab, m in graph_holders(g)}
+            for lab, m in graph_holders(r0):
+                if id(m) in own:
+                    problems.append(('outer', f'{name}: {lab} of the result IS the metadata dict of {own[id(m)]} of the source graph'))
     for level_ in ('outer', 'all'):
         g0 = snapshot(g)
         expected = canon_result(thunk(g.copy() if kind != 'graph' or name != 'from_causal_graph' else g.copy()), kind) if False else None
